@@ -826,7 +826,7 @@ func (z *ZodStruct[T, R]) parseStructWithDefaults(input any, ctx *core.ParseCont
 
 	// If we collected any issues, return them as a combined error
 	if len(collectedIssues) > 0 {
-		return nil, issues.CreateArrayValidationIssues(collectedIssues)
+		return nil, issues.CreateArrayValidationIssues(collectedIssues, ctx)
 	}
 
 	return newStruct.Interface(), nil
